@@ -307,8 +307,9 @@ def rand_str(rng, safe=True):
 
 
 class Decl:
-    """a declared option set: base objects 0,1,2 on variables 0..31 and an identical fresh copy on
-    objects 4,5,6 / variables 32..63"""
+    """a declared option set: base objects 0,1,2 on variables 0..vo-1 and an identical fresh copy on
+    objects 4,5,6 / variables vo..2*vo-1 (vo = 32; 1024 in the large histories; the harness has 2048 variables)"""
+    vo = 32
 
     def __init__(self, rng, rich=True):
         self.ops = []          # abstract declaration ops
@@ -341,7 +342,7 @@ class Decl:
     def newvar(self):
         v = self.nvar
         self.nvar += 1
-        if v >= 32:
+        if v >= self.vo:
             raise RuntimeError("too many variables")
         return v
 
@@ -427,7 +428,7 @@ class Decl:
             self.used_nm[o].add(nm.lower())
 
     def lines(self, copy):
-        oo, vo = (4, 32) if copy else (0, 0)
+        oo, vo = (4, self.vo) if copy else (0, 0)
         out = []
         for op in self.ops:
             if op[0] == "kv":
@@ -698,9 +699,10 @@ def mutate(rng, data):
 
 
 class History:
-    def __init__(self, hid, decl):
+    def __init__(self, hid, decl, quiet=False):
         self.hid, self.decl = hid, decl
-        self.lines = ["H %d" % hid] + decl.lines(False) + decl.lines(True)
+        # quiet: hundreds of declarations; their result lines carry no dump of the variables (`quiet 1` .. `quiet 0`)
+        self.lines = ["H %d" % hid] + (["quiet 1"] if quiet else []) + decl.lines(False) + decl.lines(True) + (["quiet 0"] if quiet else [])
         self.ndecl = len(self.lines) - 1
         self.checks = []       # (line index, kind, data) evaluated by the oracle
         self.tags = set()
@@ -741,7 +743,7 @@ def _dec(x):
 
 def hist_to_json(h):
     d = h.decl
-    return dict(history=h.lines, tags=sorted(h.tags), shape=d.shape, ndecl=getattr(h, "ndecl", 0),
+    return dict(history=h.lines, tags=sorted(h.tags), shape=d.shape, ndecl=getattr(h, "ndecl", 0), vo=d.vo,
                 objs={str(o): [[it.ty, it.ch, hx(it.name), it.var, it.hasarg, it.kv, it.init] for it in its] for o, its in d.objs.items()},
                 checks=[_enc(list(c)) for c in h.checks])
 
@@ -749,6 +751,7 @@ def hist_to_json(h):
 def hist_from_json(r):
     d = Decl.__new__(Decl)
     d.kvs, d.shape, d.ops, d.inits, d.kinds = KV_TABLES, r.get("shape", "flat"), [], {}, {}
+    d.vo = r.get("vo", 32)
     d.objs = {}
     for o, its in r.get("objs", {}).items():
         d.objs[int(o)] = []
@@ -1086,6 +1089,310 @@ def aimed_histories(rng, hid0):
     return out
 
 
+# ---- large histories: the dictionary of iniparser starts with DICTMINSZ = 128 slots and doubles (dictionary_set / mem_double) ----
+# Every distinct section heading and every key of a file is one entry: [Options], the sections of the sub-option prefixes,
+# [Arguments], count and the arguments included.  The families below are sized to cross each doubling (128, 256, 512 entries)
+# by -2 .. +2 and at random sizes in between: (a) hundreds of options of mixed types (prefixed sub-options sharing variables,
+# the same sub-object under two prefixes) and 0 .. 300 arguments, parsed, saved and loaded into the fresh identically declared
+# object, every value compared one by one; (b) hand-written ini files with that many keys in several (split, permuted)
+# sections, every declared key looked up and compared with the value the text denotes.
+DICT_DOUBLINGS = (128, 256, 512)
+LARGE_TYPES = ["int", "size", "dbl", "str", "bool", "sw", "kvo"]
+
+
+def blank_decl(rng, shape, vo=32):
+    d = Decl.__new__(Decl)
+    d.ops, d.objs, d.nvar, d.rng = [("kv", 0), ("kv", 1)], {0: [], 1: [], 2: []}, 0, rng
+    d.used_ch, d.used_nm, d.kvs, d.inits, d.kinds, d.shape = {0: set(), 1: set(), 2: set()}, {0: set(), 1: set(), 2: set()}, KV_TABLES, {}, {}, shape
+    d.vo = vo
+    return d
+
+
+def safe_word(rng, n):
+    """an ini-safe, non-empty word that is no option (for arguments and string values of the large histories)"""
+    for _ in range(20):
+        w = rng.choice([b"arg%d" % n, b"file_%d.txt" % n, b"a b %d" % n, b"x=%d" % n, rand_str(rng, True)])
+        if w and not w.startswith(b"-") and ini_unsafe(w, 4) is None:
+            return w
+    return b"w%d" % n
+
+
+def large_decl(rng, nmain, nsub, twice, nested):
+    """object 1 (nsub options; below it object 2 with two options under the prefix `in` if nested) is included in object 0 under
+    one or two prefixes somewhere between the nmain own options of object 0.  Returns (decl, number of sections a saved
+    file has, number of keys)"""
+    d = blank_decl(rng, "nested" if nested else "sub", vo=1024)
+    style = rng.choice([b"o%03d", b"Opt-%d", b"key_%d_x", b"v%d", b"LongOptionName%04d"])
+
+    def one(o, k, name, ch=0, types=LARGE_TYPES):
+        ty = types[k % len(types)] if rng.random() < 0.7 else rng.choice(types)
+        init = None
+        if ty == "str":
+            v = safe_word(rng, k)                 # a set string: an unset one is not written, i.e. no dictionary entry
+            init = ("s" + hx(v), v)
+        d.add_typed(o, ty, ch, name, share=(rng.random() < 0.3), init=init)
+    if nested:
+        d.ops.append(("new", 2))
+        one(2, 0, b"kk", ord("k"), ["int", "str", "size"])
+        one(2, 1, b"deep", 0, ["bool", "dbl", "sw"])
+    d.ops.append(("new", 1))
+    subtypes = [t for t in LARGE_TYPES if not (twice and t == "kvo")]          # a key-value text is per copy (F-C17h)
+    for k in range(nsub):
+        ch = b"abcdefgh"[k] if k < 8 and rng.random() < 0.5 else 0
+        one(1, k, None if (ch and rng.random() < 0.3) else b"s%d%s" % (k, rng.choice([b"", b"-x", b"_Y"])), ch, subtypes)
+    if nested:
+        d.sub(1, 2, b"in")
+    d.ops.append(("new", 0))
+    p1 = rng.randrange(0, nmain + 1)
+    p2 = rng.randrange(p1, nmain + 1)
+    pre1, pre2 = rng.choice([(b"Sub", b"Other"), (b"pre", b"Section"), (b"a", b"B")])
+    shorts = list(b"ijlmnopqrstuvwxyz")
+    rng.shuffle(shorts)
+    for i in range(nmain + 1):
+        if i == p1:
+            d.sub(0, 1, pre1)
+        if twice and i == p2:
+            d.sub(0, 1, pre2)
+        if i == nmain:
+            break
+        ch = shorts.pop() if shorts and rng.random() < 0.03 else 0
+        nm = style % i
+        if rng.random() < 0.2:
+            nm = nm.upper() if rng.random() < 0.5 else nm.lower()
+        one(0, i, None if (ch and rng.random() < 0.4) else nm, ch)
+    ncopies = 2 if twice else 1
+    nsec = 2 + ncopies * (2 if nested else 1)                       # options, arguments, the prefixes
+    nkeys = nmain + ncopies * (nsub + (2 if nested else 0))
+    return d, nsec, nkeys
+
+
+def large_argv(rng, decl, frac, nargs):
+    """a valid vector: a share `frac` of the options of object 0 in random order, each once (switches up to three times), nargs arguments
+    in between (GNU permutation) or behind `--`"""
+    groups = []
+    for it in decl.objs[0]:
+        if rng.random() >= frac:
+            continue
+        val = value_text(rng, it, decl, True) if it.hasarg else None
+        if it.ty == "str":
+            val = safe_word(rng, len(groups))
+        if it.ty in ("int", "size", "dbl") and rng.random() < 0.5:
+            val = {"int": lambda: str(rng.randrange(INT_MIN, INT_MAX + 1)).encode(), "size": lambda: str(rng.randrange(0, 1 << 63)).encode(),
+                   "dbl": lambda: repr(rng.uniform(-1e6, 1e6) * 10.0 ** rng.randrange(-30, 30)).encode()}[it.ty]()
+        if it.hasarg == 2 and rng.random() < 0.3:
+            val = None
+        nm = (b"--" + it.name) if it.name is not None else (b"-" + bytes([it.ch]))
+        if it.hasarg == 0:
+            g = [nm] * (rng.randrange(1, 4) if it.ty == "sw" else 1)
+        elif val is None:
+            g = [nm]
+        elif it.name is None:
+            g = [nm + val] if (it.hasarg == 2 or (rng.random() < 0.5 and val != b"")) else [nm, val]
+        else:
+            g = [nm + b"=" + val] if (it.hasarg == 2 or rng.random() < 0.6) else [nm, val]
+        groups.append(g)
+    rng.shuffle(groups)
+    args = [safe_word(rng, n) for n in range(nargs)]
+    ntail = rng.randrange(0, nargs + 1) if rng.random() < 0.4 else 0
+    mid, tail = args[:nargs - ntail], args[nargs - ntail:]
+    slots = sorted(rng.randrange(0, len(groups) + 1) for _ in mid)
+    words, k = [b"prog"], 0
+    for gi in range(len(groups) + 1):
+        while k < len(mid) and slots[k] == gi:
+            words.append(mid[k])
+            k += 1
+        if gi < len(groups):
+            words += groups[gi]
+    if tail or rng.random() < 0.2:
+        words.append(b"--")
+        words += tail
+    return [w for w in words if b"\0" not in w]
+
+
+def large_roundtrip_history(rng, hid, entries=None, nopt=None, nargs=None):
+    """entries: the number of dictionary entries the saved file shall have (sections + keys + count + arguments)"""
+    twice, nested = rng.random() < 0.5, rng.random() < 0.4
+    nsub = rng.randrange(2, 7)
+    ncopies = 2 if twice else 1
+    over = 2 + ncopies * (2 if nested else 1) + ncopies * (nsub + (2 if nested else 0)) + 1
+    if entries is not None:
+        nargs = rng.randrange(0, max(1, min(301, entries - over - 60)))
+        nmain = entries - over - nargs
+    else:
+        nmain = nopt
+    d, nsec, nkeys = large_decl(rng, nmain, nsub, twice, nested)
+    h = History(hid, d, quiet=True)
+    h.tags.add("large-roundtrip")
+    h.want_entries = nsec + nkeys + 1 + nargs
+    h.parse(0, large_argv(rng, d, rng.choice([0.3, 0.7, 1.0]), nargs))
+    roundtrip(h, rng, b"big.ini")
+    # the same objects once more: a few options and another argument list, saved again, loaded over what is there
+    n2 = max(0, nargs + rng.choice([-3, -1, 0, 1, 2, 5]))
+    h.parse(0, large_argv(rng, d, 8.0 / (len(d.objs[0]) + 1), n2))
+    roundtrip(h, rng, b"big2.ini")
+    return h.end()
+
+
+def ini_value(rng, it, decl):
+    """(text, value) of a valid entry for item `it` in a hand-written file"""
+    ty = it.ty
+    if ty == "sw":
+        return rng.choice([(b"true", 1), (b"false", 0), (b"1", 1), (b"0", 0), (b"2", 2), (b"10", 10), (b"17", 17), (b"100", 100), (b"yes", 1), (b"No", 0), (b"T", 1)])
+    if ty == "bool":
+        return rng.choice([(b"true", 1), (b"false", 0), (b"1", 1), (b"0", 0), (b"yes", 1), (b"no", 0), (b"T", 1), (b"F", 0), (b"Y", 1), (b"N", 0)])
+    if ty in ("int", "size", "dbl"):
+        t = value_text(rng, it, decl, True).strip(SPACE)
+        if b";" in t or b"#" in t or t == b"":
+            t = b"5"
+        if ty == "dbl":
+            return t, ("d", libc_strtod(t)[0])
+        return t, ref_strtol(t)[0]
+    if ty == "str":
+        t = safe_word(rng, it.var)
+        return t, t
+    t = value_text(rng, it, decl, True)
+    return t, decl.kvs[it.kv][t]
+
+
+def big_ini_history(rng, hid, entries):
+    """a hand-written file with exactly `entries` dictionary entries: most keys of a large declared option set, in several
+    sections that are split and permuted, keys in any case, some keys given twice (the later line wins), padded with keys
+    nobody declared; [Arguments] with a few arguments.  Every declared key is looked up by sc_options_load."""
+    twice, nested = rng.random() < 0.5, rng.random() < 0.4
+    nsub = rng.randrange(2, 7)
+    nargs = rng.choice([0, 0, 1, 3, 17])
+    ndecl_keys = rng.randrange(int(entries * 0.5), max(int(entries * 0.5) + 1, entries - 20 - nargs))
+    ncopies = 2 if twice else 1
+    nmain = max(1, ndecl_keys - ncopies * (nsub + (2 if nested else 0)))
+    d, _, _ = large_decl(rng, nmain, nsub, twice, nested)
+    items = [it for it in d.objs[0]]
+    present = []
+    for it in items:
+        if rng.random() < 0.06:
+            continue                                      # not in the file: the variable keeps its value
+        if it.name is not None:
+            sec, key = it.name.rsplit(b":", 1) if b":" in it.name else (b"Options", it.name)
+        else:
+            sec, key = b"Options", b"-" + bytes([it.ch])
+        t, v = ini_value(rng, it, d)
+        present.append([sec, key, t, it, v])
+    expect = {}
+    by_item = {id(e[3]): e for e in present}
+    for it in items:                                      # item order decides which entry of a shared variable wins
+        if id(it) in by_item:
+            expect[it.var] = by_item[id(it)][4]
+    lines = []                                            # (section, text line)
+    for (sec, key, t, it, v) in present:
+        if rng.random() < 0.05:
+            # the key twice: an earlier line with another valid value (dictionary_set must find and replace the entry)
+            t0, _ = ini_value(rng, it, d)
+            lines.append((sec, key, t0, -1))
+            lines.append((sec, key, t, 2))
+        else:
+            lines.append((sec, key, t, rng.random()))
+    secs = set(e[0].lower() for e in present)
+    keys = set((e[0] + b":" + e[1]).lower() for e in present)
+    have = len(secs) + len(keys) + ((2 + nargs) if nargs or rng.random() < 0.5 else 0)
+    with_args = have > len(secs) + len(keys)
+    pads = [b"Other", b"Pad-2", b"zz"]
+    used = sorted(set(e[0] for e in present))
+    npad = 0
+    while have < entries:
+        sec = rng.choice(pads + used[:2])
+        if sec.lower() not in secs:
+            if have + 2 > entries:
+                continue                                   # no room for a heading and a key: pad an existing section
+            secs.add(sec.lower())
+            used.append(sec)
+            have += 1
+        lines.append((sec, b"pad%d" % npad, rng.choice([b"1", b"text", b"", b"a b"]), rng.random()))
+        npad += 1
+        have += 1
+    # layout: every section in 1..3 chunks, chunks permuted; within a section the lines in random order, but the first line of a
+    # pair at the beginning and the second at the end
+    lines.sort(key=lambda l: l[3])
+    chunks = []
+    for sec in sorted(set(l[0] for l in lines)):
+        mine = [l for l in lines if l[0] == sec]
+        n = rng.randrange(1, 4)
+        cut = sorted(rng.randrange(0, len(mine) + 1) for _ in range(n - 1))
+        prev = 0
+        parts = []
+        for c in cut + [len(mine)]:
+            parts.append(mine[prev:c])
+            prev = c
+        for pi, part in enumerate(parts):
+            if part:
+                chunks.append((sec, pi, part))
+    # chunks of one section keep their order (a pair may span two chunks), different sections interleave at random
+    order = list(range(len(chunks)))
+    rng.shuffle(order)
+    seq, taken = [], {}
+    for ci in order:
+        sec = chunks[ci][0]
+        mine = [c for c in chunks if c[0] == sec]
+        k = taken.get(sec, 0)
+        taken[sec] = k + 1
+        seq.append(mine[k])
+    out = [b"# a large hand-written file"]
+    for (sec, _, part) in seq:
+        head = sec if rng.random() < 0.6 else (sec.upper() if rng.random() < 0.5 else sec.lower())
+        out.append(rng.choice([b"[%s]", b"[%s]", b"  [%s]  ", b"[ %s ]"]) % head)
+        for (_, key, t, _) in part:
+            if rng.random() < 0.3:
+                key = key.upper() if rng.random() < 0.5 else key.lower()
+            out.append(rng.choice([b"%s = %s", b"%s=%s", b"    %s   =   %s", b"\t%s= %s"]) % (key, t))
+            if rng.random() < 0.05:
+                out.append(rng.choice([b"", b"# c", b"   ; c"]))
+    args = [safe_word(rng, n) for n in range(nargs)]
+    if with_args:
+        out.append(b"[Arguments]")
+        body = [b"count = %d" % nargs] + [b"%d = %s" % (n, a) for n, a in enumerate(args)]
+        rng.shuffle(body)
+        out += body
+    text = b"\n".join(out) + b"\n"
+    h = History(hid, d, quiet=True)
+    h.tags.add("large-ini")
+    h.want_entries = entries
+    h.op("file %s %s" % (hx(b"hand.ini"), hx(text)))
+    h.op("load 0 %s" % hx(b"hand.ini"), ("load", 0, expect))
+    if with_args:
+        h.op("loadargs 0 %s" % hx(b"hand.ini"), ("ret", 0, "sc_options_load_args of a valid file with %d arguments" % nargs))
+        h.op("save 0 %s" % hx(b"hand.out"), ("args", args))
+    # the same text once more into the fresh copy: the result is a function of the text
+    h.op("load 4 %s" % hx(b"hand.ini"), ("load", 4, dict((v + d.vo, x) for v, x in expect.items())))
+    return h.end()
+
+
+def large_histories(rng, hid0, quick):
+    out, hid = [], hid0
+    for T in DICT_DOUBLINGS:
+        for delta in (-2, -1, 0, 1, 2):
+            out.append(large_roundtrip_history(rng, hid, entries=T + delta)); hid += 1
+    for _ in range(3 if quick else 40):
+        out.append(large_roundtrip_history(rng, hid, nopt=rng.randrange(100, 401), nargs=rng.randrange(0, 301))); hid += 1
+    sizes = [T + delta for T in DICT_DOUBLINGS[:2] for delta in (-1, 0, 1, 2)] + [DICT_DOUBLINGS[2] + 1]
+    sizes += [rng.randrange(129, 700) for _ in range(3 if quick else 40)]
+    if not quick:
+        sizes += [1023, 1024, 1025, 1026]
+    for n in sizes:
+        out.append(big_ini_history(rng, hid, n)); hid += 1
+    return out
+
+
+def dict_entries(text):
+    """number of dictionary entries of an ini file in ordinary layout: distinct lower-case section names + distinct section:key"""
+    sec, seen = b"", set()
+    for l in text.split(b"\n"):
+        l = l.strip(SPACE)
+        if l.startswith(b"[") and l.endswith(b"]"):
+            sec = l[1:-1].strip(SPACE).lower()
+            seen.add(sec)
+        elif b"=" in l and not l.startswith((b"#", b";")):
+            seen.add(sec + b":" + l.split(b"=", 1)[0].strip(SPACE).lower())
+    return len(seen)
+
+
 # ---------------------------------------------------------------------------------------------
 # running
 # ---------------------------------------------------------------------------------------------
@@ -1260,6 +1567,17 @@ def oracle(ctx, h, impl):
                         if not same:
                             viol("load:value", "sc_options_load: variable %d is %r, the file says %r" % (v, post.get(v), x))
                             break
+        elif kind == "ret":
+            judged += 1
+            if ret != chk[2]:
+                viol("return:" + op, "%s returned %s, expected %s" % (chk[3], ret, chk[2]))
+        elif kind == "args":
+            judged += 1
+            _, r_, _, f_ = parse_dump(line)
+            want = b"[Arguments]\n        count = %d\n" % len(chk[2]) + b"".join(b"        %d = %s\n" % (n, a) for n, a in enumerate(chk[2]))
+            if r_ != 0 or args_of(f_) != want:
+                viol("loadargs:arguments", "the argument list loaded from a hand-written file (%d arguments) is saved as %r (save returned %s)"
+                     % (len(chk[2]), (args_of(f_) or b"")[:120] if f_ is not None else None, r_))
         elif kind == "roundtrip":
             i_save = chk[2]
             l_save, l_load, l_args, l_save2 = (by_idx.get(i_save + j) for j in range(4))
@@ -1298,7 +1616,7 @@ def oracle(ctx, h, impl):
                 for it in items:
                     if it.ty not in FILE_TYPES:
                         continue
-                    a, b = vars1.get(it.var), vars4.get(it.var + 32)
+                    a, b = vars1.get(it.var), vars4.get(it.var + decl.vo)
                     if it.ty == "dbl":
                         same = dbl_close(a[1], b[1])
                     elif it.ty == "bool":
@@ -1317,10 +1635,13 @@ def oracle(ctx, h, impl):
                     if not any(it.ty == "dbl" for it in items) and f1 != f2:
                         fails.append("second save differs from the first")
             guard = getattr(h, "guards", {}).get(i_save)
+            note = ""
+            if fails and "large-roundtrip" in h.tags:
+                note = " [the saved file has %d dictionary entries: sections + keys + arguments]" % dict_entries(f1)
             if fails and guard:
                 # the guard of C17_save_load_roundtrip holds for this state, so the theorem promises the round trip
                 viol("roundtrip-under-guard:" + fails[0].split(":")[0].replace(" ", "-")[:40],
-                     "roundtrip_ok_b holds for the saved state but the library does not reproduce it: " + "; ".join(fails[:3]), dict(saved=hx(f1)))
+                     "roundtrip_ok_b holds for the saved state but the library does not reproduce it: " + "; ".join(fails[:3]) + note, dict(saved=hx(f1)))
             elif fails:
                 # a key-value item whose SAVED text does not denote the value its (shared) variable holds:
                 # the text copy of a sub-options item went stale because the variable was set through another object
@@ -1345,7 +1666,7 @@ def oracle(ctx, h, impl):
                     key = "keyvalue-stale-copy:saved-text-differs-from-variable"
                 else:
                     key = "roundtrip:" + fails[0].split(":")[0].replace(" ", "-")[:40]
-                viol(key, "save/load round trip: " + "; ".join(fails[:3]), dict(saved=hx(f1)))
+                viol(key, "save/load round trip: " + "; ".join(fails[:3]) + note, dict(saved=hx(f1)))
     return judged
 
 
@@ -1389,6 +1710,7 @@ def run(ctx):
             ctx.log("replaying the recorded history first (%d lines, %d oracle checks)" % (len(h.lines), len(h.checks)))
             hs.append(h)
     aimed = aimed_histories(rng, 1)
+    aimed += large_histories(rng, 1 + len(aimed), ctx.quick)
     hs += aimed
     nrand = 400 if ctx.quick else 12000
     hid = 1 + len(aimed)
@@ -1494,6 +1816,25 @@ def run(ctx):
                                "library: %s | model: %s" % (il[k][:400] if k < len(il) else "<missing>", ml[k][:400] if k < len(ml) else "<missing>"))
                 path = os.path.join(vlib.VERIF, "evidence", "replay", "C17-disagreement-%d.json" % ndis)
                 json.dump(dict(property="C17", replay=hist_to_json(h), library=il[k:k + 1], model=ml[k:k + 1]), open(path, "w"), indent=1)
+    # the large histories: how many dictionary entries did the files really have (the aim is checked, not assumed)
+    ent = {"large-roundtrip": [], "large-ini": []}
+    for h in hs:
+        for tag in ent:
+            if tag in h.tags:
+                il = [l for l in impl.get(h.hid, []) if not l.startswith("EV") and not l.startswith("H ")]
+                got = None
+                for k, l in enumerate(h.lines[1:]):
+                    if tag == "large-ini" and l.startswith("file "):
+                        got = dict_entries(unhx(l.split()[2]))
+                        break
+                    if tag == "large-roundtrip" and l.startswith("save ") and k < len(il):
+                        f_ = parse_dump(il[k])[3]
+                        got = dict_entries(f_) if f_ else None
+                        break
+                ent[tag].append(got)
+                if getattr(h, "want_entries", got) != got:
+                    ctx.log("note: history %d (%s) was aimed at %s dictionary entries and has %s" % (h.hid, tag, h.want_entries, got))
+    ctx.notes["large_history_dictionary_entries"] = dict((k, sorted(x for x in v_ if x is not None)) for k, v_ in ent.items())
     ctx.cov["disagreements_checked"] = sum(len(v_) for v_ in impl.values())
     ctx.cov["rule"] = ("histories = a declared option set (all ten option types, short/long names, flat / sub-options / nested sub-options with shared "
                        "variables, declared twice: base + fresh copy) followed by 2-9 random operations (parse of generated valid / invalid vectors, load of "
